@@ -96,6 +96,14 @@ func (e *fnEnc) libCall(v ssa.Value, fn *ssa.Function, c *ssa.CallCommon, args [
 					parts = append(parts, fmt.Sprintf("(= (select (s-base %s) (+ (s-off %s) %s %d)) %d)", args[0], args[0], n, i, l[i]))
 				}
 				e.vc.assume(sImp(fmt.Sprintf("(>= %s 0)", n), sAnd(parts...)))
+				if len(l) == 1 && l[0] < 128 {
+					// documented semantics for a one-byte separator: the FIRST occurrence; -1 iff the byte does not occur
+					e.vc.nfresh++
+					q := fmt.Sprintf("q!lib!%d", e.vc.nfresh)
+					at := fmt.Sprintf("(select (s-base %s) (+ (s-off %s) %s))", args[0], args[0], q)
+					rng := fmt.Sprintf("(and (<= 0 %s) (or (< %s %s) (< %s 0)) (< %s (s-len %s)))", q, q, n, n, q, args[0])
+					e.vc.assume(fmt.Sprintf("(forall ((%s Int)) (! (=> %s (not (= %s %d))) :pattern (%s)))", q, rng, at, l[0], at))
+				}
 			}
 		}
 		return
